@@ -197,6 +197,16 @@ Proof.
   apply N.eqb_eq in E0. rewrite E0 in E. lia.
 Qed.
 
+(* every value the parser can produce for /W and /Index (non-negative i32) is in the safe class on 64-bit targets *)
+Corollary xref_section_i32_safe tolerant num w0 w1 w2 data_len :
+  num <= 2147483647 -> w0 <= 2147483647 -> w1 <= 2147483647 -> w2 <= 2147483647 ->
+  never_crashes (xref_section_entries tolerant num w0 w1 w2 data_len).
+Proof.
+  intros Hn H0 H1 H2. apply xref_section_safe; unfold U64.
+  - lia.
+  - assert (num * (w0 + w1 + w2) <= 2147483647 * 6442450941) by (apply N.mul_le_mono; lia). lia.
+Qed.
+
 (* the number of entries that will be read never exceeds what the data can hold — when a row has any width *)
 Theorem xref_section_cost tolerant num w0 w1 w2 data_len n :
   xref_section_entries tolerant num w0 w1 w2 data_len = Ok n -> 0 < w0 + w1 + w2 ->
@@ -235,7 +245,7 @@ Proof.
       - unfold widths_no_empty_array in *. cbn [forallb andb] in H. exact H.
       - intros z Hin. apply Hz. right. right. right. exact Hin.
       - intros n Hin. apply Hn. right. right. right. exact Hin. }
-    destruct (Z.to_N c1 <=? as_usize c2); apply Hrec.
+    destruct (Z.to_N c1 <=? as_usize c2); [|apply Hrec]. destruct (HUGE <? as_usize c2 - Z.to_N c1 + 1); [cbn; exact I|apply Hrec].
   - assert (Hc1 : (c1 <= 2147483647)%Z) by (apply Hz; left; reflexivity).
     assert (Hn1 : n < U32) by (apply Hn; right; left; reflexivity).
     unfold widths_no_empty_array in H. cbn [forallb andb] in H. apply andb_prop in H. destruct H as [H0 H].
